@@ -44,6 +44,19 @@ var sharedStructs = map[string]bool{
 
 type accessRec struct{ fn, field, kind string }
 
+// one occurrence of an access together with the lock objects lexically held there (lexHeld table)
+type heldRec struct {
+	accessRec
+	held []string
+}
+
+// a lock / unlock call inside one function body
+type lockEv struct {
+	pos   token.Pos
+	key   string
+	taken bool
+}
+
 type accWalker struct {
 	p      *packages.Package
 	prefix string
@@ -51,6 +64,120 @@ type accWalker struct {
 	fields map[string][]*types.Var      // shared struct name -> its fields
 	fwd    map[*types.Func]map[int]bool // package function -> indices of pointer params only forwarded to sync/atomic
 	recs   *[]accessRec
+	hrecs  *[]heldRec
+	curPos token.Pos // position of the access being recorded
+	evs    []lockEv  // lock events of the function body being walked
+}
+
+// lockEvents lists the lock / unlock calls of one function body (nested function literals excluded) in source order:
+//   lock(&x.f) / unlock(&x.f)           package spin-lock helpers on a field of a shared struct   -> key "<struct>.<f>"
+//   x.lock(..) / x.unlock(..)           lock methods of a shared struct (ShardQueue.lock(shard))   -> key "<struct>.lock"
+//   x.f.Lock() / x.f.Unlock(), x.Lock() sync.Mutex field, or promoted from an embedded sync.Mutex  -> key "<struct>.<f>"
+// A deferred unlock releases at function exit: it is not an event.  The scan is lexical (source order), not path sensitive.
+func (w *accWalker) lockEvents(body ast.Node, parent map[ast.Node]ast.Node) []lockEv {
+	var evs []lockEv
+	fieldKey := func(e ast.Expr) string {
+		if u, ok := e.(*ast.UnaryExpr); ok && u.Op == token.AND {
+			e = u.X
+		}
+		sel, ok := e.(*ast.SelectorExpr)
+		if !ok {
+			return ""
+		}
+		s := w.p.TypesInfo.Selections[sel]
+		if s == nil || s.Kind() != types.FieldVal {
+			return ""
+		}
+		fv, _ := s.Obj().(*types.Var)
+		if own, ok := w.owner[fv]; ok && sharedStructs[own] {
+			return own + "." + fv.Name()
+		}
+		return ""
+	}
+	ast.Inspect(body, func(n ast.Node) bool {
+		if fl, ok := n.(*ast.FuncLit); ok && ast.Node(fl) != body {
+			return false
+		}
+		call, ok := n.(*ast.CallExpr)
+		if !ok {
+			return true
+		}
+		key, name := "", ""
+		switch f := call.Fun.(type) {
+		case *ast.Ident:
+			if fobj, ok := w.p.TypesInfo.Uses[f].(*types.Func); ok && fobj.Pkg() == w.p.Types && (f.Name == "lock" || f.Name == "unlock") && len(call.Args) == 1 {
+				key, name = fieldKey(call.Args[0]), f.Name
+			}
+		case *ast.SelectorExpr:
+			fobj, ok := w.p.TypesInfo.Uses[f.Sel].(*types.Func)
+			if !ok {
+				return true
+			}
+			sig, _ := fobj.Type().(*types.Signature)
+			if sig == nil || sig.Recv() == nil {
+				return true
+			}
+			switch f.Sel.Name {
+			case "lock", "unlock":
+				rt := sig.Recv().Type()
+				if pt, ok := rt.(*types.Pointer); ok {
+					rt = pt.Elem()
+				}
+				if sn := w.sharedName(rt); sn != "" {
+					key, name = sn+".lock", f.Sel.Name
+				}
+			case "Lock", "Unlock", "RLock", "RUnlock":
+				if !typeFrom(sig.Recv().Type(), "sync") {
+					return true
+				}
+				name = strings.ToLower(strings.TrimPrefix(f.Sel.Name, "R"))
+				if k := fieldKey(f.X); k != "" {
+					key = k
+				} else if s := w.p.TypesInfo.Selections[f]; s != nil && len(s.Index()) > 1 {
+					// promoted through an embedded field
+					recv := s.Recv()
+					if pt, ok := recv.Underlying().(*types.Pointer); ok {
+						recv = pt.Elem()
+					}
+					if st, ok := recv.Underlying().(*types.Struct); ok {
+						ef := st.Field(s.Index()[0])
+						if own, ok := w.owner[ef]; ok && sharedStructs[own] {
+							key = own + "." + ef.Name()
+						}
+					}
+				}
+			}
+		}
+		if key == "" {
+			return true
+		}
+		if name == "lock" {
+			evs = append(evs, lockEv{call.End(), key, true})
+		} else if _, deferred := parent[call].(*ast.DeferStmt); !deferred {
+			evs = append(evs, lockEv{call.Pos(), key, false})
+		}
+		return true
+	})
+	sort.Slice(evs, func(i, j int) bool { return evs[i].pos < evs[j].pos })
+	return evs
+}
+
+// heldAt: the lock keys whose latest event before pos (in source order) is a lock
+func heldAt(evs []lockEv, pos token.Pos) []string {
+	last := map[string]bool{}
+	for _, e := range evs {
+		if e.pos <= pos {
+			last[e.key] = e.taken
+		}
+	}
+	var out []string
+	for k, t := range last {
+		if t {
+			out = append(out, k)
+		}
+	}
+	sort.Strings(out)
+	return out
 }
 
 func (w *accWalker) sharedName(t types.Type) string {
@@ -69,7 +196,11 @@ func (w *accWalker) sharedName(t types.Type) string {
 }
 
 func (w *accWalker) add(fn, own string, fv *types.Var, kind string) {
-	*w.recs = append(*w.recs, accessRec{fn, own + "." + fv.Name(), kind})
+	r := accessRec{fn, own + "." + fv.Name(), kind}
+	*w.recs = append(*w.recs, r)
+	if w.hrecs != nil {
+		*w.hrecs = append(*w.hrecs, heldRec{r, heldAt(w.evs, w.curPos)})
+	}
 }
 
 // whole-struct access: every field, recursively through by-value shared struct fields
@@ -190,14 +321,20 @@ func isLHS(parent map[ast.Node]ast.Node, n ast.Node) bool {
 func (w *accWalker) walkFunc(body ast.Node, fn string) {
 	parent := parentMap(body)
 	lits := 0
+	w.evs = w.lockEvents(body, parent)
 	ast.Inspect(body, func(n ast.Node) bool {
+		if n != nil {
+			w.curPos = n.Pos()
+		}
 		switch x := n.(type) {
 		case *ast.FuncLit:
 			if ast.Node(x) == body {
 				return true
 			}
 			lits++
+			saved := w.evs
 			w.walkFunc(x, fmt.Sprintf("%s$%d", fn, lits))
+			w.evs = saved
 			return false
 		case *ast.SelectorExpr:
 			w.selector(x, fn, parent)
@@ -334,9 +471,10 @@ func (w *accWalker) selector(sel *ast.SelectorExpr, fn string, parent map[ast.No
 
 func emitAccess(loads [][]*packages.Package, out string) error {
 	var recs []accessRec
+	var hrecs []heldRec
 	for _, pkgs := range loads {
 		for _, p := range pkgs {
-			w := &accWalker{p: p, owner: map[*types.Var]string{}, fields: map[string][]*types.Var{}, recs: &recs}
+			w := &accWalker{p: p, owner: map[*types.Var]string{}, fields: map[string][]*types.Var{}, recs: &recs, hrecs: &hrecs}
 			if p.Name != "netpoll" {
 				w.prefix = p.Name + "."
 			}
@@ -417,7 +555,63 @@ func emitAccess(loads [][]*packages.Package, out string) error {
 	}
 	b.WriteString("]\n\n/-- the flat table: (field, function, kind) -/\n" +
 		"def accesses : List (Nm × Nm × Kind) := accessGroups.flatMap fun g => g.2.map fun a => (g.1, a.1, a.2)\n\n" +
-		"#guard accessGroups.all fun g => g.1.wf && g.2.all fun a => a.1.wf\n\nend Netpoll.Gen\n")
+		"#guard accessGroups.all fun g => g.1.wf && g.2.all fun a => a.1.wf\n\n")
+	// lexical lock coverage: per (field, function, kind) the lock objects held at EVERY occurrence (intersection), non-empty only
+	type hk struct{ field, fn, kind string }
+	inter := map[hk]map[string]bool{}
+	for _, h := range hrecs {
+		k := hk{h.field, h.fn, h.kind}
+		cur := map[string]bool{}
+		for _, l := range h.held {
+			cur[l] = true
+		}
+		if prev, ok := inter[k]; ok {
+			for l := range prev {
+				if !cur[l] {
+					delete(prev, l)
+				}
+			}
+		} else {
+			inter[k] = cur
+		}
+	}
+	var hks []hk
+	for k, v := range inter {
+		if len(v) > 0 && (k.kind == "r" || k.kind == "w") {
+			hks = append(hks, k)
+		}
+	}
+	sort.Slice(hks, func(i, j int) bool {
+		a, c := hks[i], hks[j]
+		if a.field != c.field {
+			return a.field < c.field
+		}
+		if a.fn != c.fn {
+			return a.fn < c.fn
+		}
+		return a.kind < c.kind
+	})
+	b.WriteString("/-- lexical lock coverage of the plain accesses: (field, function, kind, locks) - the lock objects (spin-lock word, mutex\n" +
+		"    field, or lock method `T.lock`) lexically held at EVERY occurrence of that access in the function: a `lock(..)` / `.Lock()`\n" +
+		"    call precedes it in the function body and no matching non-deferred unlock lies in between (source order, not path\n" +
+		"    sensitive).  Accesses outside every critical section are not listed. -/\n" +
+		"def lexHeld : List (Nm × Nm × Kind × List Nm) := [\n")
+	for i, k := range hks {
+		var ls []string
+		for l := range inter[k] {
+			ls = append(ls, l)
+		}
+		sort.Strings(ls)
+		for j := range ls {
+			ls[j] = leanNm(ls[j])
+		}
+		sep := ","
+		if i == len(hks)-1 {
+			sep = ""
+		}
+		fmt.Fprintf(&b, "  (%s, %s, .%s, [%s])%s\n", leanNm(k.field), leanNm(k.fn), k.kind, strings.Join(ls, ", "), sep)
+	}
+	b.WriteString("]\n\n#guard lexHeld.all fun a => a.1.wf && a.2.1.wf && a.2.2.2.all (·.wf)\n\nend Netpoll.Gen\n")
 	return os.WriteFile(filepath.Join(out, "Access.lean"), []byte(b.String()), 0o644)
 }
 
